@@ -19,6 +19,13 @@
 (d) a detector describes the surface it is run on: ONE FeatureEdgeDetector object run on surface A and then on
     surface B for every ordered pair of small families (same face list with other fold angles, and surfaces with other
     numbers of vertices / edges / faces), B being another mesh object or the same object after its vertices moved.
+(e) documented defaults and call forms: the signatures of the entry points are pinned in SIGNATURES (copied from the unchanged
+    tree's signatures / docstrings, never read from the library). Every construction form of FeatureEdgeDetector (all options
+    left out; each option left out with the others by keyword; the first k options by position, k = 1..5) must give the same
+    detection, corners, feature graph, corner cloud and log output as the same effective option vector with every option by
+    keyword; run(mesh=) / detect(mesh) / detect(mesh=) / detector(mesh) the same as run(mesh); extract_border_cycle without a
+    starting point the same as with the documented default given explicitly, and every border entry point called by keyword the same
+    as by position. inspect.signature() of every entry point is compared with the pinned table (C15.defaults.signature).
 """
 from __future__ import annotations
 import math
@@ -35,7 +42,9 @@ RULE = ("border: one case = (labelled manifold face list, sort_neighborhoods); e
         "previous-run state); non-trivial = the mesh has an interior edge or a border. histories: one case = (mesh, "
         "sort_neighborhoods, ordered pair of border entry points) played twice on one mesh object, and (mesh, border vertex, "
         "integer form of the starting point), both also with config.display_duplicate_attribute_warning on. detector re-use: one case = (ordered pair of surfaces that differ in the band of "
-        "an edge or in their face list, other mesh object | same object deformed, declaration, options)")
+        "an edge or in their face list, other mesh object | same object deformed, declaration, options). defaults / call forms: one case = "
+        "(mesh, declaration, construction form of the detector: which options are left out / given by position) and (mesh, border vertex, "
+        "keyword form of the border call), each compared with the same call with every argument explicit")
 ASSUMPTIONS = [
     "inputs are oriented manifold polygon complexes (checked by mc.families.is_oriented_manifold) with planar, "
     "non-degenerate faces; mesh.edges is taken as the edge numbering (construction is C02's subject)",
@@ -57,6 +66,10 @@ ASSUMPTIONS = [
     "and restored by it",
     "detector re-use is exercised on meshes that carry no persistent 'normals' face attribute (with one, the detector "
     "documentedly reads it); vertices are moved through mesh.vertices[i] = Vec",
+    "defaults / call forms: the documented defaults are the pinned table SIGNATURES (signature of the unchanged tree, which agrees with "
+    "the docstrings); the clauses only compare a call form with the fully explicit call on an identical fresh mesh (whose answer is "
+    "the subject of the base clauses); 'verbose' is observed through the text printed on stdout during construction + run; "
+    "feature_graph / corner_point_cloud are compared by presence and sizes only",
 ]
 BOUNDS = {
     "quick": "border: SURF triangles n<=5 all labelled (434), tri+quad n=4 all, n=5 <=4 faces, pentagons, SURF(6) classes (28), face-listing deviations <=1 on n<=4, "
@@ -65,11 +78,15 @@ BOUNDS = {
              "accordions with 1-2 folds, cones/bipyramids, SURF(<=5) on the moment curve, ZOO, non-convex flat quads; "
              "histories + 5 integer forms of every border start: SURF triangles n<=4, tri+quad n=4, pentagons, SURF(6) classes, holey 3x3, grids, swiss, ZOO "
              "(209 meshes x 2 sorts x 16 histories of 4 calls x display_duplicate_attribute_warning off/on, attribute blackboard compared around every call); detector re-use: all ordered pairs of 5 hinges, 4 accordions, 6 cones/bipyramids, "
-             "7 surfaces of different sizes x 2-3 declarations x 2-3 options (1008 cases)",
+             "7 surfaces of different sizes x 2-3 declarations x 2-3 options (1008 cases); defaults / call forms: 19 surfaces (hinges either side "
+             "of both thresholds, accordions, cones, bipyramid, closed solids, flat grid, 4-loop plate, annulus) x 2 declarations x 36 construction "
+             "forms of the detector (1 all-omitted + 5 options x 3 vectors of the others + 4 vectors x 5 positional prefixes) + 2 x 4 run forms; "
+             "border call forms on the 209 history meshes x 2 sorts x every border vertex x 3 keyword forms; 6 signatures",
     "thorough": "border: + SURF(6) all labelled (12934), face-listing deviations <=1 on triangles n=5, tri+quad n=5 <=5 faces (2612), holey 3x4 tri all (743), 4x5 quad all, "
                 "4x4 tri <=5 removed, 4x4 mixed <=4 removed, 5x5 quad <=3 removed, 3x3 mixed all; features: + hinge shapes/orientations x 40 per side, accordions with 2 folds (all 72 angle "
                 "pairs x 4 modes x 2 widths) and 3 folds (54 angle triples x 2 sign patterns x 2 modes), all 12 options, all cones/bipyramids, SURF(6) all labelled, previous-run states on every family; "
-                "histories / integer forms (x duplicate-attribute switch off/on): + SURF triangles n=5, face-listing deviations n=4, holey 4x4 quad, 3x4 tri; detector re-use: 11 hinges, 9 accordions x 3 modes, 9 surfaces of different sizes, more options",
+                "histories / integer forms (x duplicate-attribute switch off/on): + SURF triangles n=5, face-listing deviations n=4, holey 4x4 quad, 3x4 tri; detector re-use: 11 hinges, 9 accordions x 3 modes, 9 surfaces of different sizes, more options; "
+                "defaults / call forms: 20 surfaces x both sorts, border call forms on the thorough history family",
 }
 
 OPTS_ALL = [[ob, fc, co] for ob in (False, True) for fc in (True, False) for co in (4, 2, 6)]
@@ -322,6 +339,14 @@ def tasks(tier):
     for sort in (True, False):
         for i in range(0, len(hist), 6):
             out.append({"kind": "border_hist", "sort": sort, "meshes": hist[i:i + 6]})
+    out.append({"kind": "signature", "sort": True})
+    dm = _defaults_meshes(tier)
+    for sort in ((True,) if tier == "quick" else (True, False)):
+        for i in range(0, len(dm), 2):
+            out.append({"kind": "feat_defaults", "sort": sort, "meshes": dm[i:i + 2], "decls": DECL_MIN})
+    for sort in (True, False):
+        for i in range(0, len(hist), 30):
+            out.append({"kind": "border_forms", "sort": sort, "meshes": hist[i:i + 30]})
     for fam, meshes, decls, opts in _reuse_plan(tier):
         for sort in ((True, False) if fam == "reuse_mixed" else (True,)):
             out.append({"kind": "feat_reuse", "family": fam, "sort": sort, "meshes": meshes, "decls": decls, "opts": opts})
@@ -1131,14 +1156,359 @@ def _run_feature_reuse(M, task, rep: Report):
                                           cx.reuse_class, {**cx.base, "phase": phase, "msg": c.msg})
 
 
+# ========================================================================================== defaults / call forms
+# The documented signatures of the public entry points of this property: a pinned copy of the signatures / docstrings of
+# the unchanged tree (NOT read from the library at run time: a change of a default changes the signature too).
+# [parameter name, documented default | REQ], in the documented positional order.
+REQ = "<required>"
+SIGNATURES = {
+    "extract_border_cycle": [["mesh", REQ], ["starting_point", None]],
+    "extract_border_cycle_all": [["mesh", REQ]],
+    "extract_boundary_of_surface": [["mesh", REQ]],
+    "FeatureEdgeDetector.__init__": [["self", REQ], ["only_border", False], ["flag_corners", True], ["corner_order", 4],
+                                     ["compute_feature_graph", True], ["verbose", True]],
+    "FeatureEdgeDetector.run": [["self", REQ], ["mesh", REQ]],
+    "FeatureEdgeDetector.detect": [["self", REQ], ["mesh", REQ]],
+}
+DET_PARAMS = [p for p, _ in SIGNATURES["FeatureEdgeDetector.__init__"][1:]]
+DET_DEFAULT = [d for _, d in SIGNATURES["FeatureEdgeDetector.__init__"][1:]]
+DET_ALT = [[True], [False], [6, 2], [False], [False]]       # the other values of every option (discrimination guards)
+# every documented default: (callee, parameter) - finish() demands that each was exercised (omitted, and given positionally)
+DEFAULTS_TABLE = [(c, p) for c, sig in sorted(SIGNATURES.items()) for p, d in sig if not (isinstance(d, str) and d == REQ)]
+DET_VECTORS = [[True, False, 6, False, False], [False, True, 2, True, False], [True, True, 4, True, False],
+               [False, False, 6, True, True]]
+SUMMARY_FIELDS = ("feature_edges", "feature_vertices", "feature_degrees", "local_feat_edges", "corners", "feature_graph",
+                  "corner_point_cloud", "log_output")
+
+
+def _is_req(x):
+    return isinstance(x, str) and x == REQ
+
+
+def _same_value(a, b):
+    return type(a) is type(b) and bool(a == b)
+
+
+def _resolve(M, callee):
+    from mouette import processing as P
+    obj = P
+    for part in callee.split("."):
+        obj = getattr(obj, part)
+    return obj
+
+
+def _check_signatures(M, rep: Report):
+    """Clause 'the documented defaults are the defaults': the pinned table against inspect.signature() of the tree under
+    test. A default that differs from the documented one IS the defect (class = the parameter)."""
+    import inspect
+    for callee, want in sorted(SIGNATURES.items()):
+        o = call(lambda: inspect.signature(_resolve(M, callee)))
+        rep.evaluations += 1; rep.transitions += 1
+        if not o.ok:
+            rep.violation("C15.defaults.signature", callee, exc_kind(o), "any", {"msg": o.msg}); continue
+        got = [[p.name, REQ if p.default is inspect.Parameter.empty else p.default, p.kind.name] for p in o.value.parameters.values()]
+        shown = [[g[0], repr(g[1]), g[2]] for g in got]
+        rep.flag("defaults:signature_compared:" + callee)
+        rep.outcome("signature", callee + ":" + str(len(got)))
+        if [g[0] for g in got] != [w[0] for w in want]:
+            names_g, names_w = [g[0] for g in got], [w[0] for w in want]
+            first = next((w for g, w in zip(names_g + [None] * len(names_w), names_w) if g != w), names_g[-1] if names_g else "none")
+            kind = "mismatch:parameter_order" if sorted(names_g) == sorted(names_w) else "mismatch:parameter_names"
+            rep.violation("C15.defaults.signature", callee, kind, str(first), {"documented": [[w[0], repr(w[1])] for w in want], "got": shown})
+            continue
+        for (name, d, kd), (_, wd) in zip(got, want):
+            rep.evaluations += 1
+            if kd != "POSITIONAL_OR_KEYWORD":
+                rep.violation("C15.defaults.signature", callee, "mismatch:parameter_kind", name, {"documented": "positional or keyword", "got": shown})
+            elif _is_req(wd) != _is_req(d) or (not _is_req(wd) and not call(_same_value, d, wd).value):
+                rep.violation("C15.defaults.signature", callee, "mismatch:default_value", name,
+                              {"parameter": name, "documented_default": repr(wd), "got_default": repr(d), "got": shown})
+
+
+# ------------------------------------------------------------------------------------------ detector: construction forms
+def _defaults_meshes(tier):
+    mid = 0.5 * (L.TH37 + L.TH60)
+    ms = [[f"hinge:{a:.4f}", *L.hinge(a)] for a in (0.15, mid, math.pi / 2, 2.6, -math.pi / 2)]
+    ms += [["acc4x2tri", *L.accordion(4, 2, "tri", [L.TH60 + 0.02, -(L.TH37 + 0.02)])],
+           ["acc4x3mixed", *L.accordion(4, 3, "mixed", [1.2, -0.2])], ["acc3x2quad", *L.accordion(3, 2, "quad", [1.2])]]
+    ms += [[f"cone{k}:{h}", *L.cone(k, h)] for k, h in ((4, 0.5), (4, 5), (5, 2), (3, 1))]
+    ms += [["bipyr4:2:0.5", *L.cone(4, 2, 0.5)]]
+    for name in ("octahedron", "cube_quads", "tetrahedron_surface") + (() if tier == "quick" else ("icosahedron",)):
+        p, f = getattr(F, name)(); ms.append([name, p, f])
+    p, f = F.grid(3, 3, "tri"); ms.append(["flat3x3tri", p, f])
+    p, f = L.swiss("quad"); ms.append(["swissquad", p, f])
+    p, f = F.prism_annulus(4, True); ms.append(["annulus4a", p, f])
+    return [[nm, [list(map(float, x)) for x in p], [list(x) for x in f]] for nm, p, f in ms]
+
+
+def _detector_forms():
+    """[label, class, n leading positional, names given by keyword, effective option vector]: every way of leaving out / placing the options."""
+    forms = [["all_omitted", "omitted=all", 0, [], list(DET_DEFAULT)]]
+    bases = [list(DET_DEFAULT)] + DET_VECTORS[:2]
+    for i, p in enumerate(DET_PARAMS):
+        for b, base in enumerate(bases):
+            vec = list(base); vec[i] = DET_DEFAULT[i]
+            forms.append([f"omit:{p}:others={'defaults' if b == 0 else 'v%d' % b}", "omitted=" + p, 0,
+                          [q for q in DET_PARAMS if q != p], vec])
+    for b, vec in enumerate(DET_VECTORS):
+        for k in range(1, len(DET_PARAMS) + 1):
+            forms.append([f"positional:{k}:v{b + 1}", "positional", k, DET_PARAMS[k:], list(vec)])
+    return forms
+
+
+def _det_summary(det, m):
+    import io, contextlib
+    n = len(m.vertices)
+    buf = io.StringIO()
+    with contextlib.redirect_stdout(buf):
+        g, pc = det.feature_graph, det.corner_point_cloud
+    return {"feature_edges": sorted(int(e) for e in det.feature_edges),
+            "feature_vertices": sorted(int(v) for v in det.feature_vertices),
+            "feature_degrees": [int(det.feature_degrees[v]) for v in range(n)],
+            "local_feat_edges": sorted([int(k), sorted(int(i) for i in v)] for k, v in det.local_feat_edges.items()),
+            "corners": None if det.corners is None else [int(det.corners[v]) for v in range(n)],
+            "feature_graph": None if g is None else [len(g.vertices), len(g.edges)],
+            "corner_point_cloud": None if pc is None else len(pc.vertices)}
+
+
+def _play_detector(M, mk_mesh, args, kwargs, run_form="run"):
+    """('ok', summary) | ('raises:<Exc>@<where>', message): build a fresh mesh, construct, run, read."""
+    import io, contextlib
+    from mouette.processing import FeatureEdgeDetector
+    m = mk_mesh()
+    buf = io.StringIO()
+    with contextlib.redirect_stdout(buf):
+        o = call(FeatureEdgeDetector, *args, **kwargs)
+        if not o.ok:
+            return "raises:" + o.exc, "FeatureEdgeDetector.__init__", o.msg
+        det = o.value
+        if run_form == "run":
+            r = call(det.run, m)
+        elif run_form == "run_keyword":
+            r = call(det.run, mesh=m)
+        elif run_form == "detect":
+            r = call(det.detect, m)
+        elif run_form == "detect_keyword":
+            r = call(det.detect, mesh=m)
+        else:
+            r = call(det, m)
+            if r.ok and r.value is not det:
+                return "mismatch:call_does_not_return_the_detector", "FeatureEdgeDetector.__call__", repr(r.value)[:100]
+        if not r.ok:
+            return "raises:" + r.exc, "FeatureEdgeDetector.run", r.msg
+    s = call(_det_summary, det, m)
+    if not s.ok:
+        return "raises:" + s.exc, "FeatureEdgeDetector", s.msg
+    s.value["log_output"] = buf.getvalue().splitlines()
+    return "ok", None, s.value
+
+
+def _first_difference(a, b):
+    """None | (kind, callee, detail) of answer a (form under test) against answer b (reference call)."""
+    if a[0] != "ok" or b[0] != "ok":
+        if a[0] == b[0]:
+            return None
+        if a[0] != "ok":
+            return a[0], a[1], {"msg": a[2], "reference": b[0]}
+        return "mismatch:answers_where_the_reference_raises", b[1], {"reference": b[0], "reference_msg": b[2]}
+    for f in SUMMARY_FIELDS:
+        if a[2][f] != b[2][f]:
+            return "mismatch:" + f, "FeatureEdgeDetector.__init__", {"field": f, "got": a[2][f], "reference_call": b[2][f]}
+    return None
+
+
+RUN_FORMS = ("run_keyword", "detect", "detect_keyword", "__call__")
+
+
+def _run_feature_defaults(M, task, rep: Report):
+    """Clause 'an option left out means its documented default, an option given by position means the option documented at that
+    position': every construction form of FeatureEdgeDetector (all options omitted; each option omitted with the others by
+    keyword - at their defaults and at two other vectors; the first k options by position for k = 1..5 on four vectors) must
+    give the same detection (edge set, derived data, corners, feature graph, corner cloud, log output) as the SAME effective
+    option vector with every option given by keyword (DET_DEFAULT pinned from the documentation). The reference calls are
+    the subject of the base clauses. Also the ways of running: run(mesh=), detect(mesh), detect(mesh=), detector(mesh)."""
+    forms = _detector_forms()
+    for name, pts, faces in task["meshes"]:
+        faces = [tuple(f) for f in faces]
+        if not F.is_oriented_manifold(faces, len(pts)):
+            rep.count("premise_failed"); rep.notes.append(f"{name}: not an oriented manifold"); continue
+        orc = L.FeatureOracle(pts, faces)
+        und = list(orc.edges)
+        for di, (mode, sel) in enumerate(task["decls"]):
+            mk = lambda: _declare(M, pts, faces, und, mode, sel)[0]
+            base = {"mesh": name, "points": pts, "faces": faces, "hard_edges": [mode, sel], "sort": bool(task["sort"])}
+            refs = {}
+
+            def ref(vec):
+                key = repr(vec)
+                if key not in refs:
+                    refs[key] = _play_detector(M, mk, (), dict(zip(DET_PARAMS, vec)))
+                    rep.transitions += 1
+                return refs[key]
+
+            explained = set()
+            pending_all = None
+            for label, fcls, k, kw_names, vec in forms:
+                args = tuple(vec[:k])
+                kwargs = {q: vec[DET_PARAMS.index(q)] for q in kw_names}
+                got = _play_detector(M, mk, args, kwargs)
+                rep.transitions += 1; rep.traces += 1; rep.states += 1; rep.evaluations += len(SUMMARY_FIELDS)
+                d = _first_difference(got, ref(vec))
+                rep.outcome("defaults:" + fcls, d[0] if d else "same")
+                rep.case(("defaults", name, mode, sel, label, bool(task["sort"])))
+                if fcls.startswith("omitted="):
+                    for q in (DET_PARAMS if fcls == "omitted=all" else [fcls[len("omitted="):]]):
+                        rep.flag("defaults:omitted:FeatureEdgeDetector.__init__." + q)
+                else:
+                    for q in DET_PARAMS[:k]:
+                        rep.flag("defaults:positional:FeatureEdgeDetector.__init__." + q)
+                if d is None:
+                    continue
+                detail = {**base, "construction": {"positional": list(args), "keyword": kwargs},
+                          "effective_options_as_documented": dict(zip(DET_PARAMS, vec)), **d[2]}
+                if fcls == "omitted=all":
+                    pending_all = (d, detail)      # reported below unless a single omission shows the same difference
+                    continue
+                if fcls.startswith("omitted=") and label.endswith("others=defaults"):
+                    explained.add(d[0])
+                if fcls == "positional":
+                    # one class of defect (the options are not taken in the documented order) whatever it leads to on this
+                    # vector (another detection, or an exception because a number landed where a flag was meant)
+                    rep.violation("C15.defaults.detector.positional", "FeatureEdgeDetector.__init__", "mismatch:positional_meaning",
+                                  "positional", {**detail, "observed": d[0], "observed_in": d[1]})
+                else:
+                    rep.violation("C15.defaults.detector.omitted", d[1], d[0], fcls, detail)
+            if pending_all is not None:
+                d, detail = pending_all
+                if d[0] in explained:
+                    rep.count("defaults:all_omitted_explained_by_a_single_omission")
+                else:
+                    rep.violation("C15.defaults.detector.omitted", d[1], d[0], "omitted=all", detail)
+            # ---- ways of running the detection (all options omitted, and one vector by keyword)
+            # (against the plain det.run(mesh) of a detector built the same way)
+            for vec, kwargs in ((list(DET_DEFAULT), {}), (DET_VECTORS[1], dict(zip(DET_PARAMS, DET_VECTORS[1])))):
+                plain = _play_detector(M, mk, (), kwargs, "run")
+                rep.transitions += 1
+                for rf in RUN_FORMS:
+                    got = _play_detector(M, mk, (), kwargs, rf)
+                    rep.transitions += 1; rep.traces += 1; rep.evaluations += len(SUMMARY_FIELDS)
+                    d = _first_difference(got, plain)
+                    rep.outcome("defaults:run_form:" + rf, d[0] if d else "same")
+                    rep.flag("defaults:run_form:" + rf)
+                    if d is not None:
+                        callee = {"__call__": "Worker.__call__"}.get(rf, "FeatureEdgeDetector." + rf.split("_")[0])
+                        rep.violation("C15.defaults.detector.run_form", callee, d[0], "run_form=" + rf,
+                                      {**base, "construction_keywords": kwargs, "run_form": rf, **d[2]})
+            # ---- discrimination guards: another value of an option / two options swapped changes the answer on some input
+            if di == 0:
+                for i, p in enumerate(DET_PARAMS):
+                    for alt in DET_ALT[i]:
+                        vec = list(DET_DEFAULT); vec[i] = alt
+                        if _first_difference(ref(vec), ref(list(DET_DEFAULT))) is not None:
+                            rep.flag("defaults:discriminates:" + p)
+                for vec in DET_VECTORS:
+                    for i in range(len(DET_PARAMS) - 1):
+                        sw = list(vec); sw[i], sw[i + 1] = sw[i + 1], sw[i]
+                        if sw != vec and _first_difference(ref(sw), ref(vec)) is not None:
+                            rep.flag(f"defaults:swap_discriminates:{DET_PARAMS[i]}<->{DET_PARAMS[i + 1]}")
+        rep.count("defaults_meshes")
+
+
+# ------------------------------------------------------------------------------------------ border: call forms
+def _norm_cycle(r):
+    if isinstance(r, (tuple, list)) and len(r) == 2 and isinstance(r[0], (tuple, list)):
+        return [_as_int_list(r[0]), [None if x is None else int(x) for x in r[1]]]
+    return [list(r)] if isinstance(r, (tuple, list)) else repr(r)
+
+
+def _norm_polyline(r):
+    pl, mp = r
+    return {"vertices": [[float(x) for x in p] for p in pl.vertices], "edges": [[int(x) for x in e] for e in pl.edges],
+            "map": sorted([int(k), int(v)] for k, v in dict(mp).items())}
+
+
+def _check_border_forms(M, name, n, pts, faces, sort, rep: Report):
+    """Clause 'the starting point left out means the documented default (None: the library picks a border vertex), arguments given
+    by keyword mean the same as given by position': every form of calling the three border entry points against the plain
+    positional call on an identical fresh mesh (the plain calls are the subject of the base clauses)."""
+    from mouette.processing import extract_border_cycle, extract_border_cycle_all, extract_boundary_of_surface
+    P = pts if pts is not None else F.moment_curve(n)
+    build = lambda: F.build_surface(P, faces)
+    base = {"mesh": name, "points": "moment_curve" if pts is None else P, "faces": faces, "sort": sort}
+    loops = F.border_loops(faces)
+    bverts = sorted(v for l in loops for v in l)
+    dflt = SIGNATURES["extract_border_cycle"][1][1]
+
+    def compare(sub, callee, fcls, got, want, norm, detail):
+        rep.evaluations += 1
+        g = call(lambda: norm(got.value)) if got.ok else got
+        w = call(lambda: norm(want.value)) if want.ok else want
+        verdict = None
+        if not g.ok and w.ok:
+            verdict = ("raises:" + g.exc, {"msg": g.msg})
+        elif g.ok and not w.ok:
+            verdict = ("mismatch:answers_where_the_plain_call_raises", {"plain_call": w.exc + ": " + w.msg})
+        elif g.ok and g.value != w.value:
+            verdict = ("mismatch:result", {"got": g.value, "plain_positional_call": w.value})
+        elif not g.ok and g.exc != w.exc:
+            verdict = ("raises:" + g.exc, {"msg": g.msg, "plain_call": w.exc})
+        rep.outcome("border_form:" + fcls, verdict[0] if verdict else "same")
+        if verdict:
+            rep.violation("C15.defaults.border." + sub, callee, verdict[0], fcls, {**base, **detail, **verdict[1]})
+
+    # ---- starting point omitted == the documented default given explicitly (by position), on identical fresh meshes
+    want = call(extract_border_cycle, build(), dflt)
+    got = call(extract_border_cycle, build())
+    rep.transitions += 2; rep.traces += 1
+    compare("omitted", "extract_border_cycle", "omitted=starting_point", got, want, _norm_cycle,
+            {"call": "extract_border_cycle(mesh)", "reference_call": f"extract_border_cycle(mesh, {dflt!r})"})
+    rep.flag("defaults:omitted:extract_border_cycle.starting_point")
+    # ---- arguments by keyword == by position: the default ...
+    for fcls, fn in (("keyword=starting_point", lambda m: extract_border_cycle(m, starting_point=dflt)),
+                     ("keyword=mesh+starting_point", lambda m: extract_border_cycle(mesh=m, starting_point=dflt)),
+                     ("keyword=mesh", lambda m: extract_border_cycle(mesh=m))):
+        got = call(fn, build())
+        rep.transitions += 1; rep.traces += 1
+        compare("keyword", "extract_border_cycle", fcls, got, want if fcls != "keyword=mesh" else call(extract_border_cycle, build()),
+                _norm_cycle, {"call": fcls, "start": repr(dflt) if fcls != "keyword=mesh" else "omitted"})
+    # ---- ... and every border vertex (one mesh object: purity is the subject of the history clause)
+    m = build()
+    for s in bverts:
+        want = call(extract_border_cycle, m, s)
+        rep.transitions += 1
+        rep.flag("defaults:positional:extract_border_cycle.starting_point")
+        for fcls, fn in (("keyword=starting_point", lambda: extract_border_cycle(m, starting_point=s)),
+                         ("keyword=mesh+starting_point", lambda: extract_border_cycle(mesh=m, starting_point=s)),
+                         ("keyword=mesh+starting_point", lambda: extract_border_cycle(starting_point=s, mesh=m))):
+            got = call(fn)
+            rep.transitions += 1
+            compare("keyword", "extract_border_cycle", fcls, got, want, _norm_cycle, {"call": fcls, "start": s})
+        rep.case(("border_form", n, tuple(map(tuple, faces)), sort, s))
+    want = call(extract_border_cycle_all, build()); got = call(lambda: extract_border_cycle_all(mesh=build()))
+    rep.transitions += 2
+    compare("keyword", "extract_border_cycle_all", "keyword=mesh", got, want, lambda r: [_as_int_list(c) for c in r], {"call": "mesh="})
+    want = call(extract_boundary_of_surface, build()); got = call(lambda: extract_boundary_of_surface(mesh=build()))
+    rep.transitions += 2
+    compare("keyword", "extract_boundary_of_surface", "keyword=mesh", got, want, _norm_polyline, {"call": "mesh="})
+    rep.count("border_form_meshes"); rep.states += 1; rep.traces += 1
+    if loops and 0 not in bverts:
+        rep.flag("defaults:default_start_is_not_vertex_0")
+    if len(loops) >= 2:
+        rep.flag("defaults:border_forms:several_loops")
+
+
 # ========================================================================================== entry points
 def run_task(task, rep: Report):
     import mouette as M
     old = M.config.sort_neighborhoods
     M.config.sort_neighborhoods = bool(task["sort"])
     try:
-        if task["kind"] in ("border", "border_hist"):
-            fn = _check_border_mesh if task["kind"] == "border" else _check_border_history
+        if task["kind"] == "signature":
+            _check_signatures(M, rep)
+        elif task["kind"] == "feat_defaults":
+            _run_feature_defaults(M, task, rep)
+        elif task["kind"] in ("border", "border_hist", "border_forms"):
+            fn = {"border": _check_border_mesh, "border_hist": _check_border_history, "border_forms": _check_border_forms}[task["kind"]]
             for name, n, pts, faces in task["meshes"]:
                 faces = [tuple(f) for f in faces]
                 if not F.is_oriented_manifold(faces, n):
@@ -1211,6 +1581,31 @@ def finish(tier, rep: Report):
     for form in START_FORMS:
         if "start_form:" + form not in rep.outcomes:
             fails.append("starting point never given as " + form)
+    # ---- documented defaults / call forms: every entry of the pinned table was left out and given by position, every
+    # signature was compared, and on some input another value of each option (two neighbouring options swapped) changes the answer
+    for callee, p in DEFAULTS_TABLE:
+        for how in ("omitted", "positional"):
+            if f"defaults:{how}:{callee}.{p}" not in rep.flags:
+                fails.append(f"documented default never exercised ({how}): {callee}.{p}")
+    for callee in SIGNATURES:
+        if "defaults:signature_compared:" + callee not in rep.flags:
+            fails.append("signature never compared with the documented one: " + callee)
+    for p in DET_PARAMS:
+        if "defaults:discriminates:" + p not in rep.flags:
+            fails.append("no input on which another value of the option changes the detection: " + p)
+    for a, b in zip(DET_PARAMS, DET_PARAMS[1:]):
+        if f"defaults:swap_discriminates:{a}<->{b}" not in rep.flags:
+            fails.append(f"no input on which swapping two neighbouring options changes the detection: {a}<->{b}")
+    for rf in RUN_FORMS:
+        if "defaults:run_form:" + rf not in rep.flags:
+            fails.append("way of running the detector never played: " + rf)
+    for fl in ("defaults:default_start_is_not_vertex_0", "defaults:border_forms:several_loops"):
+        if fl not in rep.flags:
+            fails.append("coverage flag missing: " + fl)
+    dfloors = {"quick": {"defaults_meshes": 19, "border_form_meshes": 418}, "thorough": {"defaults_meshes": 40, "border_form_meshes": 3404}}[tier]
+    for k, v in dfloors.items():
+        if rep.counters.get(k, 0) < v:
+            fails.append(f"{k}: {rep.counters.get(k, 0)} < pinned floor {v}")
     return fails
 
 
